@@ -6,6 +6,8 @@ import (
 	"encoding/json"
 	"fmt"
 	"math"
+	"strings"
+	"time"
 
 	"github.com/mandykoh/prism/ciexyy"
 	"github.com/mandykoh/prism/ciexyz"
@@ -290,6 +292,20 @@ func runC12(r *core.Run) {
 		grid = 64
 		ntrip = 1000000
 	}
+	// the first adaptations of the process, from eight goroutines at once, between different pairs
+	{
+		pairs := [][2][2]float32{{c12Illuminants["D65"], c12Illuminants["D50"]}, {c12Illuminants["A"], c12Illuminants["D75"]}, {c12Illuminants["D50"], c12Illuminants["F2"]}, {c12Illuminants["E"], c12Illuminants["C"]}}
+		firstUseBurst(8, strings.Contains(r.Variant, "stagger"), func(g int) {
+			pr := pairs[g%len(pairs)]
+			if kind, msg, _, _ := c12Pair(pr[0], pr[1]); kind != "" {
+				r.Violate("pair", kind+"/first-use", msg+" (among the first adaptations of the process, eight goroutines at once)", c12Case{Kind: kind, Whites: [][2]float32{pr[0], pr[1]}})
+			}
+		})
+		r.AddEvals(8)
+		if isBurst(r.Variant) {
+			return
+		}
+	}
 	ws, skipped := c12Whites(r, grid)
 	r.Obs("whites", len(ws))
 	r.Obs("grid_points_skipped_as_not_physically_valid", skipped)
@@ -350,6 +366,12 @@ func runC12(r *core.Run) {
 			for _, d := range []float32{1e-6, 2e-5, 5e-5, 9e-5, 5e-4} {
 				pairs = append(pairs, [2][3]float32{a3, {a3[0] + d, a3[1], a3[2] - d}}, [2][3]float32{a3, {a3[0], a3[1] + d, a3[2]}})
 			}
+			// the same whites on a 0..100 scale, in every combination with the unit scale
+			pairs = append(pairs,
+				[2][3]float32{{a3[0] * 100, a3[1] * 100, a3[2] * 100}, b3},
+				[2][3]float32{a3, {b3[0] * 100, b3[1] * 100, b3[2] * 100}},
+				[2][3]float32{{a3[0] * 100, a3[1] * 100, a3[2] * 100}, {b3[0] * 100, b3[1] * 100, b3[2] * 100}},
+				[2][3]float32{{a3[0] * 12, a3[1] * 12, a3[2] * 12}, {b3[0] / 16, b3[1] / 16, b3[2] / 16}})
 			for _, pr := range pairs {
 				n++
 				nt++
@@ -387,6 +409,12 @@ func runC12(r *core.Run) {
 		r.AddEvals(int64(ntrip / shards))
 		r.NTCount(nt) // seeded draws; collisions among ~1e5 whites^3 are negligible but not excluded
 	})
+	if r.Variant == "" {
+		for _, v := range burstVariants {
+			r.RunVariantChild(v, 5*time.Minute, false)
+		}
+		r.Obs("fresh_process_variants", burstVariants)
+	}
 	ca := ciexyz.AdaptBetweenXYYWhitePoints(ciexyy.D65, ciexyy.D50)
 	r.Sample(map[string]any{"from": "D65", "to": "D50", "matrix_rows": libMat(matrix.Matrix3(ca))})
 	r.Sample(map[string]any{"white_xy": ws[len(ws)/2], "xyz": ciexyz.ColorFromXYY(xyy(ws[len(ws)/2]))})
@@ -413,5 +441,5 @@ func replayC12(stage string, raw json.RawMessage) (bool, string, error) {
 }
 
 func init() {
-	core.Register(&core.Property{ID: "C12", Level: "exploration", Run: runC12, Replay: replayC12})
+	core.Register(&core.Property{ID: "C12", Level: "exploration", Run: runC12, Replay: replayC12, Child: variantChild("C12", "exploration", runC12)})
 }
